@@ -64,13 +64,16 @@ REQUIRED_PROBES["thorough"] = REQUIRED_PROBES["quick"]
 
 ERR_VALUES = ["boom", "x", 7, 0, 1, ["f", 1.0], ["f", 2.5], True, False,
               None, ["l", [1, 2]], ["l", []], "ERROR", "1", ["set", [3]],
-              ["set", []], ["map", [["k", 1]]], ["l", [["l", [1]], "a"]]]
+              ["set", []], ["map", [["k", 1]]], ["l", [["l", [1]], "a"]],
+              ["map", []], ""]
 # pairs that are equal although spelled differently, and near misses
 EQUIV = {repr(1): [["f", 1.0]], repr(["f", 1.0]): [1],
          repr(0): [["f", 0.0]]}
 NEAR = {repr(1): ["1", True], repr("1"): [1], repr(True): [1, "TRUE"],
         repr(0): [False, None], repr(None): [0, "NULL", False],
-        repr(["l", []]): [["set", []], None],
+        repr(["l", []]): [["set", []], None, ["map", []]],
+        repr(["map", []]): [["set", []], ["l", []], None],
+        repr(""): [None, "ERROR", 0],
         repr(["l", [1, 2]]): [["l", [2, 1]], ["set", [1, 2]]],
         repr("boom"): ["Boom", "boom "], repr("ERROR"): ["error"]}
 
@@ -154,7 +157,13 @@ class NestGen:
             if kind == "for":
                 self.nvar = getattr(self, "nvar", 0) + 1
                 nloop = rng.randrange(1, 4)
-                c2 = dict(c2, loopvar=f"k_{self.nvar}",
+                lvname = f"k_{self.nvar}"
+                if ctx.get("loopvar") and rng.random() < 0.3:
+                    # blocks open no scope: a nested loop may reuse the
+                    # variable name of the loop around it (both loops then
+                    # bind and remove the same entry)
+                    lvname = ctx["loopvar"]
+                c2 = dict(c2, loopvar=lvname,
                           loopat=rng.randrange(nloop))
                 lv = c2["loopvar"]
                 body = [self.block(depth + 1, c2)] if rng.random() < 0.7 \
